@@ -861,7 +861,10 @@ func AggregateWriteVariants(w io.Writer, start, end int, appendSNP bool, thresho
 	}
 
 	sort.SliceStable(order, func(i, j int) bool {
-		return order[i].Position < order[j].Position || (order[i].Position == order[j].Position && order[i].Changetype < order[j].Changetype) || (order[i].Position == order[j].Position && order[i].Changetype == order[j].Changetype && order[i].QueAl < order[j].QueAl)
+		return order[i].Position < order[j].Position || (order[i].Position == order[j].Position && order[i].Changetype < order[j].Changetype) || (order[i].Position == order[j].Position && order[i].Changetype == order[j].Changetype && order[i].QueAl < order[j].QueAl) ||
+			// the keys come out of a map in random order, so ties on the above (e.g. ins:9:4 and ins:9:5, or the same residue change in
+			// two features) have to be broken by something, or the order of the output differs from run to run
+			(order[i].Position == order[j].Position && order[i].Changetype == order[j].Changetype && order[i].QueAl == order[j].QueAl && order[i].Representation < order[j].Representation)
 	})
 
 	for _, V := range order {
